@@ -12,7 +12,7 @@ MANIFEST = {
             'is turned into an executable through every builder (Parser compile, Cell compile, dictionary model, file model, deep copy, JSON round trip, ExcelModel.compile with the '
             'volatile cell upstream of, downstream of and unrelated to the inputs) and evaluated along every history of length <= 4 (thorough 6) over {advance 1 s, advance 1 day, evaluate}. '
             'The wall clock is a fake datetime module bound into the library, the RNG is seeded and a twin stream predicts every draw: each evaluation must show the clock of that '
-            'evaluation and consume exactly one fresh draw per random call site; diamonds of dependents must see one single value. RANDBETWEEN is also called 40 times on each of 17 bound pairs (integer, fractional, empty, invalid). The builders are also composed: origin (dictionary, file) > every sequence of <= 2 of {deep copy, JSON round trip, dill round trip, a calculation} | use (calculate, the three compile forms, a compiled function deep-copied or dill-copied); dill chains run in a forked child (dill.loads rebinds library globals) and judge random draws by variation instead of the twin stream. NOW/TODAY workbooks are also run from 23:59:58.6 on 31 Dec (sub-second clock across midnight and year end).',
+            'evaluation and consume exactly one fresh draw per random call site; diamonds of dependents must see one single value. RANDBETWEEN is also called 40 times on each of 17 bound pairs (integer, fractional, empty, invalid). The builders are also composed: origin (dictionary, file) > every sequence of <= 2 of {deep copy, JSON round trip, dill round trip, a calculation} | use (calculate, the three compile forms, a compiled function deep-copied or dill-copied); dill chains run in a forked child (dill.loads rebinds library globals) and judge random draws by variation instead of the twin stream. NOW/TODAY workbooks are also run from 23:59:58.6 on 31 Dec (sub-second clock across midnight and year end).' ' Later additions: composed origins (up to two of deepcopy / JSON / dill / calculate, dill in a forked child), a sub-second clock at year end, steps of 31 and 365 days, formulas that also use defined names, the same volatile call twice in one formula.',
     'note': 'Trusted: the fake clock and twin RandomState in this file, ref/scalar.py for the surrounding arithmetic. RANDBETWEEN values are judged for range, integrality and freshness (draw consumed), not the exact value.',
 }
 RULE = 'case = (program, builder) with all histories run inside; non-trivial = evaluated at least twice with the clock advanced; distinct = case key'
